@@ -2,6 +2,7 @@
 (src/ndn/appv2.py, src/ndn/app.py, src/ndn/name_tree.py, src/ndn/app_support/dispatcher.py)."""
 import re
 import apphelp
+from props import pit_extract
 
 PROP = 'C04'
 TITLE = 'Incoming Interests reach exactly the handler of their longest registered prefix'
@@ -12,9 +13,19 @@ THEOREMS = [
     'Ndn.C04.detach_receives_nothing', 'Ndn.C04.detach_frame', 'Ndn.C04.detach_falls_back',
     'Ndn.C04.detach_absent_keyerror', 'Ndn.C04.reply_truthful', 'Ndn.C04.reply_payload',
     'Ndn.C04.reply_deadline_is_lifetime', 'Ndn.C04.key_repr_irrelevant',
+    # the model computes with / is pinned to the table generated from the source text (lean/NdnGen/C04.lean)
+    'Ndn.C04.gen_reply_deadline', 'Ndn.C04.gen_reply_returns', 'Ndn.C04.gen_reply_send', 'Ndn.C04.gen_attach', 'Ndn.C04.gen_detach',
+    'Ndn.C04.gen_dispatch', 'Ndn.C04.gen_path_from_key',
 ]
 PARTIAL = {}
 TRUSTED = [
+    'C04: lean/NdnGen/C04.lean is regenerated from the source text of appv2.py / app.py / app_support/dispatcher.py / '
+    'name_tree.py by every run (harness/props/pit_extract.py, ast only): DEFAULT_LIFETIME, the way it replaces a missing '
+    'InterestLifetime (`is not None`, not `or`) and the operator of the too-late test of reply (`>`) are VALUES THE MODEL '
+    'COMPUTES WITH (Fib.mkPending / Fib.reply; reply_* are theorems about them); the duplicate test of attach '
+    '(callback truthiness, ValueError), detach = del, the route / callback tests of dispatch, the KeyError ignored by the '
+    'legacy unregister, _path_from_key and the return values of reply are PINNED by gen_*. Trusted: the extractor '
+    'recognises the shape it names (unknown otherwise, which fails the pin; the driver answers bad-table)',
     'C04: pygtrie.Trie is trusted - modelled as an association list Name -> node with map semantics for '
     'setdefault/__delitem__ and longest_prefix = the longest key that is a prefix and has a value',
     'C04: that the three accepted representations of a name (URI string, component list, encoded name) normalise to the '
@@ -28,6 +39,10 @@ TRUSTED = [
     'C04: reply at exactly the deadline instant counts as "lifetime not elapsed" (inclusive bound, as the code documents '
     'with `now > deadline`)',
 ]
+def extract(repo):
+    return pit_extract.generate_c04(repo)
+
+
 RULE = ('histories of 2..14 attach/detach operations over the 31 names of a depth-4 tree with labels {a, ab} (so /a/b-like '
         'component-boundary confusions would show), each name given in one of 10 representations (URI string, list of str, '
         'bytes, bytearray, read-only / writable memoryview, mixed, encoded name as bytes/bytearray/memoryview; mutable '
@@ -939,7 +954,9 @@ LEVEL_TEXT = ('Lean 4 theorems over a hand-written model of the handler table of
               'refused with the table unchanged; detach frame theorems; reply returns True <-> bytes sent <-> now <= deadline. '
               'The model is tied to the code on every run by differential execution against the real NDNApp (v2 and legacy) on a '
               'virtual-time loop and the real Dispatcher, plus the property oracle evaluated on the implementation.')
-LEVEL_NOTE = ('Proof is about the model; model=code is sampled (differential testing), not proved. pygtrie is modelled as a map; '
+LEVEL_NOTE = ('Proof is about the model; model=code is sampled (differential testing) and, for the constants / operators / '
+              'guard shapes listed under TRUSTED, read off the source text on every run (lean/NdnGen/C04.lean, pinned by the '
+              'gen_* theorems), not proved. pygtrie is modelled as a map; '
               'name-representation equivalence is delegated to C09 and sampled here; the model describes the repaired reply() '
               '(candidate fix C04-reply-returns-true).')
 TECHNIQUE = 'Lean 4 proof (induction over attach/detach histories, refinement to an abstract table) + model/implementation correspondence check'
